@@ -143,8 +143,10 @@ func addAttrChanges(patchRoot, oldElem, newElem *etree.Element, elemPath string)
 		e.SetText(a.Value)
 	}
 	for _, a := range changes.Added {
+		// RFC 5261: an attribute is added with sel=<element> and type="@<name>"
 		e := patchRoot.CreateElement("add")
-		e.CreateAttr("sel", fmt.Sprintf("%s/@%s", elemPath, a.Key))
+		e.CreateAttr("sel", elemPath)
+		e.CreateAttr("type", fmt.Sprintf("@%s", a.Key))
 		e.SetText(a.Value)
 	}
 	for _, a := range changes.Removed {
